@@ -3,3 +3,4 @@ import Spec.Slice
 import Spec.Semantics
 import Spec.Printer
 import Spec.Threads
+import Spec.Grammar
